@@ -158,6 +158,19 @@ Theorem C04_key_decrypt_leaf_old_refuted : forall sha1 cfb_dec rsa_bits rsa_dec 
 Proof. exact key_decrypt_leaf_old_refuted. Qed.
 Print Assumptions C04_key_decrypt_leaf_old_refuted.
 
+(* a session key packet kept for another recipient (algorithm without ciphertext class: opaque octets) never yields a
+   session key, whatever private key is tried and whatever the octets are: decrypt_sk raises *)
+Theorem C04_unknown_recipient_does_not_open : forall rsa_bits rsa_dec ecdh_shared hash aes_unwrap k a x,
+  exists e, pkesk_decrypt_sk rsa_bits rsa_dec ecdh_shared hash aes_unwrap k a (COpaque x) = Raise e /\ (e = EType \/ e = ENotImpl).
+Proof. exact opaque_does_not_open. Qed.
+Print Assumptions C04_unknown_recipient_does_not_open.
+(* ... hence a message whose public-key session key packets are all of that kind opens for no private key *)
+Theorem C04_opaque_only_never_opens : forall sha1 cfb_dec rsa_bits rsa_dec ecdh_shared hash aes_unwrap holder es ct pt,
+  (forall id a c, In (PK id a c) es -> exists x, c = COpaque x) ->
+  key_decrypt sha1 cfb_dec rsa_bits rsa_dec ecdh_shared hash aes_unwrap holder (es, Some ct) <> Ok pt.
+Proof. exact key_decrypt_opaque_only. Qed.
+Print Assumptions C04_opaque_only_never_opens.
+
 (* session key packets that are not followed by an encrypted data packet (a message cut right after them): PGPError
    (repair b46a5dd; the input object used to come back as if it were the decrypted message) *)
 Theorem C04_key_decrypt_no_data_raises : forall sha1 cfb_dec rsa_bits rsa_dec ecdh_shared hash aes_unwrap holder es,
